@@ -349,7 +349,6 @@ SITES = [
     ("ksp_exact", CORE + "/algorithm/search/ksp/ksp_termination_criteria.rs", "terminate_search", r"solution_size", r"k"),
     ("ksp_max_iteration", CORE + "/algorithm/search/ksp/ksp_termination_criteria.rs", "terminate_search", r"\*max as usize", r"k"),
     ("ksp_factor", CORE + "/algorithm/search/ksp/ksp_termination_criteria.rs", "terminate_search", r"\(\*factor as usize\)\.saturating_mul\(solution_size\)", r"k"),
-    ("yens_loop", CORE + "/algorithm/search/ksp/yens_algorithm.rs", None, r"accepted\.len\(\)", r"query\.k"),
     ("restriction_weight", APP + "/app/compass/config/frontier_model/vehicle_restrictions/vehicle_restriction.rs", None, r"weight_in_restriction_unit", r"\*restriction_weight"),
     ("restriction_weight_per_axle", APP + "/app/compass/config/frontier_model/vehicle_restrictions/vehicle_restriction.rs", None, r"weight_per_axle", r"\*restriction_weight"),
     ("restriction_length", APP + "/app/compass/config/frontier_model/vehicle_restrictions/vehicle_restriction.rs", None, r"length_in_restriction_unit", r"\*restriction_length"),
@@ -360,8 +359,6 @@ SITES = [
     ("edge_match_tolerance", APP + "/plugin/input/default/edge_rtree/edge_rtree_input_plugin.rs", None, r"distance", r"tolerance"),
     ("phev_battery_left", PT + "/routee/vehicle/default/phev.rs", None, r"battery_soc_percent", r"0\.0"),
     ("energy_rate_floor", PT + "/routee/prediction/prediction_model_ops.rs", None, r"energy_rate", r"minimum_energy_rate"),
-    ("cache_precision_high", CORE + "/util/cache_policy/float_cache_policy.rs", None, r"\*precision", r"10"),
-    ("cache_precision_low", CORE + "/util/cache_policy/float_cache_policy.rs", None, r"\*precision", r"-10"),
     ("custom_u64_negative", CORE + "/model/state/custom_feature_format.rs", None, r"value", r"&StateVar::ZERO"),
     ("scc_largest", CORE + "/algorithm/component/scc.rs", None, r"component\.len\(\)", r"largest_component\.len\(\)"),
     ("create_time_speed", CORE + "/model/unit/builders.rs", None, r"s", r"Speed::ZERO"),
@@ -374,7 +371,6 @@ SITES = [
     ("interp_round_half", PT + "/routee/prediction/interpolation/interp.rs", None, r"diff", r"0\.5"),
     ("find_nearest_loop", PT + "/routee/prediction/interpolation/utils.rs", None, r"low", r"high"),
     ("find_nearest_mid", PT + "/routee/prediction/interpolation/utils.rs", None, r"arr\[mid\]", r"target"),
-    ("find_nearest_last", PT + "/routee/prediction/interpolation/utils.rs", None, r"arr\[low\]", r"target"),
     ("heading_wrap_high", CORE + "/model/access/default/turn_delays/edge_heading.rs", None, r"angle", r"180"),
     ("heading_wrap_low", CORE + "/model/access/default/turn_delays/edge_heading.rs", None, r"angle", r"-180"),
 ]
